@@ -58,7 +58,8 @@ def count_order_types(maxp, maxq):
 # --------------------------------------------------------------------------- #
 # concretisations
 # --------------------------------------------------------------------------- #
-_IRREGULAR = [0.0, 1.0, 2.5, 3.0, 7.0, 7.5, 9.0, 12.0, 12.5, 20.0, 21.0, 33.0, 34.5]
+_IRREGULAR = [0.0, 1.0, 2.5, 3.0, 7.0, 7.5, 9.0, 12.0, 12.5, 20.0, 21.0, 33.0, 34.5, 36.0, 40.5, 41.0, 47.0, 50.5, 52.0, 53.5,
+              60.0, 61.0, 63.5, 70.0, 72.5, 80.0, 81.0, 90.5]
 _INTS = [-3, -1, 0, 2, 3, 7, 8, 10, 15, 16, 20, 31, 40]
 
 
